@@ -88,7 +88,7 @@ class C11(Check):
             if rng.random() < 0.55:
                 # generated grammar: randomised serialisable features (see sim/gramgen.py)
                 g = gramgen.gen(rng)
-                p = Lark(g['grammar'], **g['options'])
+                p = Lark(g['grammar'], **W.caller_spelling(dict(g['options'])))
                 e = W.Entry('gen', g['grammar'], g['options'], samples=g['samples'])
                 sg = W.SentenceGen(p, e)
                 spec = {'name': 'gen%d' % i, 'grammar': g['grammar'], 'options': g['options'], 'user': {}, 'input_kind': 'bytes' if g['options'].get('use_bytes') else 'str'}
